@@ -322,6 +322,12 @@ impl Prop for C04 {
         ]
     }
 
+    fn mix(&self, prev: &Case, cur: &Case) -> Vec<Case> {
+        // the current left operand with the previous right operand, and the other way round
+        // (integer/integer forms exist for one common type only: the strategy never mixes types)
+        let ok = |c: &Case| !matches!((c.x, c.y), (Opnd::Int(a), Opnd::Int(b)) if a.ty != b.ty);
+        vec![Case { y: prev.y.clone(), ..cur.clone() }, Case { x: prev.x.clone(), ..cur.clone() }].into_iter().filter(ok).collect()
+    }
     fn check(&self, case: &Case, ctx: &mut Ctx) {
         let md = set_mode(case.mode);
         ctx.label(mode_label(md));
